@@ -28,6 +28,9 @@ RESERVED = {ELT, "exp", "ln", "tanh", "Rmax", "Rabs", "map", "lsum", "lmax", "ni
             "else", "let", "in", "match", "with", "end", "fun", "forall", "exists", "Rlt_dec", "Rle_dec", "Rgt_dec",
             "Rge_dec", "Req_EM_T"}
 
+# The only accepted shape of the wrapper (compared by ast.dump, docstrings/comments aside).  u has shape (1, *x.shape);
+# the `u.size == 0` guard returns u[0], the empty array of x's shape, without calling np.vectorize (which can not infer
+# an output type from no element): that is exactly `map f [] = []`, so `map` models both paths and no separate case is emitted.
 EXPECTED_ELEMENTWISE = '''
 def _elementwise(func):
     vect = np.vectorize(func)
@@ -35,6 +38,8 @@ def _elementwise(func):
     @wraps(func)
     def vect_wrapper(*args, **kwargs):
         u = np.asanyarray(args)
+        if u.size == 0:
+            return u[0]
         v = vect(u)
         return v[0]
 
@@ -352,7 +357,7 @@ def translate_module(src):
             if s.name == "_elementwise":
                 exp_fn = ast.parse(EXPECTED_ELEMENTWISE).body[0]
                 if _dump_nodoc(s) != _dump_nodoc(exp_fn):
-                    raise Reject("%s: the _elementwise wrapper is not `np.vectorize(func)(np.asanyarray(args))[0]` any more" % _where(s))
+                    raise Reject("%s: the _elementwise wrapper is not `u = np.asanyarray(args); u[0] if u.size == 0 else np.vectorize(func)(u)[0]`" % _where(s))
                 if funcs:
                     raise Reject("_elementwise defined after its uses")
                 seen_elementwise = True
@@ -517,7 +522,7 @@ def collect_stmt(s, what, ind):
 
 HEADER = """(* GENERATED by tools/vlib/py2coq_act.py from reservoirpy/activationsfunc.py -- DO NOT EDIT.
    Regenerated from the current source by `./check C18` (pregen) and by setup (tools/regen.py).
-   Arrays are flattened to `list R`; `@_elementwise` (np.vectorize) is `map`; np.max / .sum() are lmax / lsum
+   Arrays are flattened to `list R`; `@_elementwise` (np.vectorize, with its empty-input guard: map f [] = []) is `map`; np.max / .sum() are lmax / lsum
    (model/ActPrelude.v); np.log1p z = ln (1 + z); np.maximum = Rmax; np.abs = Rabs; `if a < b` = Rlt_dec. *)
 From Coq Require Import Reals List String.
 From RV Require Import model.ActPrelude.
